@@ -30,6 +30,7 @@ package reachability
 // instruction of f.
 //@ macro WI() = f.Blocks[bi].Instrs[ii]
 //@ func findCallees
+//@   loops 4
 //@   property C18
 //@   ghost bi int
 //@   ghost ii int
